@@ -938,3 +938,7 @@ Definition ex_islands : world :=
   | Some (w, _) => w | None => empty_world end.
 Definition ex_round : list (Z * step) :=
   match auto_round 1050 ex_islands with Some (_, s, _) => s | None => [] end.
+
+(** two seeds that bootstrapped on their own and found each other by gossip (failure detection off) *)
+Definition ex_two : world :=
+  match play empty_world [PSteps (firstn 2 wb_prefix); PRounds 3 1050 50] with Some (w, _) => w | None => empty_world end.
